@@ -33,6 +33,8 @@ type Engine struct {
 	wsMemo  map[*ssa.Function]*WriteSet
 	inlMemo map[*ssa.Function]bool
 	overlay string
+	known   *KnownFindings
+	curProp string
 }
 
 func LoadEngine(repo, verif string) (*Engine, error) {
@@ -281,6 +283,55 @@ type WriteSet struct {
 	Keys map[string]bool
 	All  bool   // unknown dynamic effects
 	Why  string // first reason for All
+	// Ref tracking (only filled for the instructions of the function itself, not transitively):
+	// for heap keys written only through known SSA reference values, the set of those values.
+	Refs   map[string][]ssa.Value
+	AnyRef map[string]bool
+	track  bool
+}
+
+// addKey records that key may be written; ref is the SSA value of the object reference when
+// the write is known to go to that object only (nil = any object).
+func (w *WriteSet) addKey(key string, ref ssa.Value) {
+	w.Keys[key] = true
+	if !w.track {
+		return
+	}
+	if ref == nil {
+		w.AnyRef[key] = true
+		return
+	}
+	for _, x := range w.Refs[key] {
+		if x == ref {
+			return
+		}
+	}
+	w.Refs[key] = append(w.Refs[key], ref)
+}
+
+// storeRefValue: the SSA value of the object whose field/cell a store through addr writes (nil if unknown).
+func storeRefValue(addr ssa.Value) ssa.Value {
+	switch a := addr.(type) {
+	case *ssa.FieldAddr:
+		switch a.X.(type) {
+		case *ssa.FieldAddr, *ssa.IndexAddr:
+			return storeRefValue(a.X)
+		}
+		return a.X
+	case *ssa.IndexAddr:
+		switch x := a.X.(type) {
+		case *ssa.UnOp:
+			if x.Op == token.MUL {
+				return storeRefValue(x.X)
+			}
+		case *ssa.FieldAddr, *ssa.IndexAddr:
+			return storeRefValue(x)
+		}
+		return nil
+	case *ssa.Alloc, *ssa.Global:
+		return nil
+	}
+	return addr
 }
 
 func (w *WriteSet) add(o *WriteSet) {
@@ -417,7 +468,7 @@ func (e *Engine) WriteSetOf(f *ssa.Function) *WriteSet {
 		return ws
 	}
 	visiting := map[*ssa.Function]bool{}
-	ws := &WriteSet{Keys: map[string]bool{}}
+	ws := &WriteSet{Keys: map[string]bool{}, Refs: map[string][]ssa.Value{}, AnyRef: map[string]bool{}}
 	e.collectWrites(f, ws, visiting, true)
 	e.wsMemo[f] = ws
 	return ws
@@ -430,35 +481,35 @@ func (e *Engine) instrWrites(f *ssa.Function, ins ssa.Instruction, ws *WriteSet,
 			if strings.HasPrefix(k, "struct:") {
 				// whole-struct store through a pointer
 				for _, fk := range e.structFieldKeys(i.Addr.Type().(*types.Pointer).Elem()) {
-					ws.Keys[fk] = true
+					ws.addKey(fk, i.Addr)
 				}
 			} else if k != "" {
-				ws.Keys[k] = true
+				ws.addKey(k, storeRefValue(i.Addr))
 			}
 		} else {
 			ws.All, ws.Why = true, "store through unknown address in "+f.String()
 		}
 	case *ssa.MapUpdate:
-		ws.Keys[mapKey(i.Map.Type())] = true
-		ws.Keys[mapDomKey(i.Map.Type())] = true
+		ws.addKey(mapKey(i.Map.Type()), i.Map)
+		ws.addKey(mapDomKey(i.Map.Type()), i.Map)
 	case *ssa.Alloc:
 		if i.Heap || allocEscapes(i) {
-			ws.Keys["alloc"] = true
+			ws.addKey("alloc", nil)
 			el := i.Type().(*types.Pointer).Elem()
 			if _, ok := structOf(el); ok {
 				for _, fk := range e.structFieldKeys(el) {
-					ws.Keys[fk] = true
+					ws.addKey(fk, i) // fresh object
 				}
 			} else {
-				ws.Keys[cellKey(el)] = true
+				ws.addKey(cellKey(el), i)
 			}
 		}
 	case *ssa.MakeMap:
-		ws.Keys["alloc"] = true
-		ws.Keys[mapKey(i.Type())] = true
-		ws.Keys[mapDomKey(i.Type())] = true
+		ws.addKey("alloc", nil)
+		ws.addKey(mapKey(i.Type()), i)
+		ws.addKey(mapDomKey(i.Type()), i)
 	case *ssa.Next, *ssa.Range:
-		ws.Keys["it:"+ins.(ssa.Value).Name()] = true
+		ws.addKey("it:"+ins.(ssa.Value).Name(), nil)
 	case ssa.CallInstruction:
 		e.callWrites(f, i, ws, visiting)
 	}
@@ -473,7 +524,7 @@ func (e *Engine) callWrites(f *ssa.Function, ci ssa.CallInstruction, ws *WriteSe
 		key := "(" + typeKey(c.Value.Type()) + ")." + c.Method.Name()
 		if fc := e.cs.Funcs[ifaceKey(c)]; fc != nil && fc.HasAssigns {
 			for _, k := range e.assignKeys(fc, nil) {
-				ws.Keys[k] = true
+				ws.addKey(k, nil)
 			}
 			return
 		}
@@ -483,12 +534,12 @@ func (e *Engine) callWrites(f *ssa.Function, ci ssa.CallInstruction, ws *WriteSe
 	if b, ok := c.Value.(*ssa.Builtin); ok {
 		switch b.Name() {
 		case "delete":
-			ws.Keys[mapKey(c.Args[0].Type())] = true
-			ws.Keys[mapDomKey(c.Args[0].Type())] = true
+			ws.addKey(mapKey(c.Args[0].Type()), nil)
+			ws.addKey(mapDomKey(c.Args[0].Type()), nil)
 		case "copy":
 			// copy into a slice: handled like an element store on its base
 			if k, ok := e.staticStoreKey(&ssa.IndexAddr{X: c.Args[0]}); ok && k != "" {
-				ws.Keys[k] = true
+				ws.addKey(k, nil)
 			}
 		}
 		return
@@ -502,7 +553,7 @@ func (e *Engine) callWrites(f *ssa.Function, ci ssa.CallInstruction, ws *WriteSe
 	if callee == nil {
 		if fc := e.fnTypeContract(c.Value.Type()); fc != nil && fc.HasAssigns {
 			for _, k := range e.assignKeys(fc, nil) {
-				ws.Keys[k] = true
+				ws.addKey(k, nil)
 			}
 			return
 		}
@@ -510,8 +561,37 @@ func (e *Engine) callWrites(f *ssa.Function, ci ssa.CallInstruction, ws *WriteSe
 		return
 	}
 	if fc := e.cs.Funcs[callee.String()]; fc != nil && fc.HasAssigns {
-		for _, k := range e.assignKeys(fc, callee) {
-			ws.Keys[k] = true
+		keys := e.assignKeys(fc, callee)
+		// refine: assigns clauses of the form param.field / *param name the object by argument
+		if ws.track && len(keys) == len(fc.Assigns) {
+			for i, a := range fc.Assigns {
+				var ref ssa.Value
+				var pname string
+				switch x := a.E.(type) {
+				case ESel:
+					if id, ok := x.X.(EIdent); ok && x.Name != "all" {
+						pname = id.Name
+					}
+				case EUn:
+					if id, ok := x.X.(EIdent); ok && x.Op == "*" {
+						if _, isStruct := isPtrToStructByName(callee, id.Name); !isStruct {
+							pname = id.Name
+						}
+					}
+				}
+				if pname != "" {
+					for j, p := range callee.Params {
+						if p.Name() == pname && j < len(c.Args) {
+							ref = c.Args[j]
+						}
+					}
+				}
+				ws.addKey(keys[i], ref)
+			}
+			return
+		}
+		for _, k := range keys {
+			ws.addKey(k, nil)
 		}
 		return
 	}
@@ -521,14 +601,14 @@ func (e *Engine) callWrites(f *ssa.Function, ci ssa.CallInstruction, ws *WriteSe
 			if sty, _, ok := isPtrToStruct(a.Type()); ok {
 				if n := namedOf(sty); n != nil && n.Obj().Pkg() != nil && strings.HasPrefix(n.Obj().Pkg().Path(), modulePath) {
 					for _, fk := range e.structFieldKeys(sty) {
-						ws.Keys[fk] = true
+						ws.addKey(fk, nil)
 					}
 				}
 			} else if p, ok := types.Unalias(a.Type()).Underlying().(*types.Pointer); ok {
 				if k, ok := e.staticStoreKey(a); ok && k != "" {
-					ws.Keys[k] = true
+					ws.addKey(k, nil)
 				} else {
-					ws.Keys[cellKey(p.Elem())] = true
+					ws.addKey(cellKey(p.Elem()), nil)
 				}
 			}
 		}
@@ -557,6 +637,16 @@ func (e *Engine) collectWrites(f *ssa.Function, ws *WriteSet, visiting map[*ssa.
 		}
 	}
 	// closures defined inside may run when called; their writes are accounted for at call sites
+}
+
+func isPtrToStructByName(f *ssa.Function, pname string) (types.Type, bool) {
+	for _, p := range f.Params {
+		if p.Name() == pname {
+			t, _, ok := isPtrToStruct(p.Type())
+			return t, ok
+		}
+	}
+	return nil, false
 }
 
 func ifaceKey(c *ssa.CallCommon) string {
